@@ -63,10 +63,10 @@ def region_obj(eng, v):
     """Allocate a region object whose fields are what the constructor contract
     (proved in unit `post_init`) establishes."""
     st = eng.st
-    dur = Fl(R(I(v.data.n)) / R(v.sr * v.sw * v.ch))
+    dur = Fl(eng.spec_div(I(v.data.n), v.sr * v.sw * v.ch))
     r = st.new_obj("AudioRegion", {
         "data": v.data, "sampling_rate": v.sr, "sample_width": v.sw, "channels": v.ch, "start": v.start,
-        "duration": dur, "end": (Fl(v.start.t + dur.t) if v.start is not None else None),
+        "duration": dur, "end": (Fl(eng.frnd("+", v.start, dur, v.start.t + dur.t)) if v.start is not None else None),
         "meta": Opq(tag="meta") if v.start is not None else None,
     })
     sv = st.new_obj("_SecondsView", {"_region": r})
@@ -216,13 +216,13 @@ def unit_post_init(sess, ctx):
         dur = h.get("duration")
         okd = isinstance(dur, Fl)
         eng.prove("C16:ctor:duration-is-samples-over-rate",
-                  (dur.t * R(sr) * R(sw * ch) == R(I(data.n))) if okd else False, props=("C16", "C05"))
+                  (dur.t == eng.spec_div(I(data.n), sr * sw * ch)) if okd else False, props=("C16", "C05"))
         if start is None:
             pass     # (end / meta of a region without a start time are outside every statement)
         else:
             en = h.get("end")
             eng.prove("C05:ctor:end-is-start-plus-duration",
-                      (en.t == R(start) + dur.t) if isinstance(en, Fl) and okd else False, props=("C05",))
+                      (en.t == eng.frnd("+", start, dur, R(start) + dur.t)) if isinstance(en, Fl) and okd else False, props=("C05",))
             mt = h.get("meta")
             arg = st.heap[mt.oid]["arg"] if isinstance(mt, Ref) and mt.cls == "MetaDict" else None
             okm = isinstance(arg, DictVal) and set(arg.entries) == {"start", "end"}
@@ -320,7 +320,7 @@ def unit_len(sess, ctx):
             res = eng.run_function(ctx.fi(QC + "_MillisView.__len__"), [], {}, mv)
             dur = eng.st.heap[me.oid]["duration"]
             eng.prove("C16:millis-len-is-rounded-duration-in-ms",
-                      I(res) == r_round_half_even(dur.t * 1000) if is_int(res) else False, props=("C16",))
+                      I(res) == r_round_half_even(eng.spec_mul(dur, 1000)) if is_int(res) else False, props=("C16",))
         return None
     sess.run_unit(u, eng, run_)
     return u
@@ -336,23 +336,23 @@ def seconds_getitem_contract(eng, fi_, self_val, args, kwargs):
     for x in (index.start, index.stop):
         if x is not None and not (is_int(x) or isinstance(x, Fl)) or isinstance(x, bool):
             raise PyRaise("TypeError", ())
-    a, b = sec_bounds(v, index.start, index.stop)
+    a, b = sec_bounds(v, index.start, index.stop, eng)
     return getitem_contract(eng, None, reg, [SliceVal(a, b, None)], {})
 
 
-def sec_bounds(v, a, b):
+def sec_bounds(v, a, b, eng):
     """Sample bounds of a seconds slice: start truncated toward zero, stop
     rounded to nearest (half to even)."""
     if a is None:
         sa = 0
     elif isinstance(a, Fl):
-        sa = r_trunc(a.t * R(v.sr))
+        sa = r_trunc(eng.spec_mul(a, v.sr))
     else:
         sa = I(a) * v.sr
     if b is None:
         sb = None
     elif isinstance(b, Fl):
-        sb = r_round_half_even(b.t * R(v.sr))
+        sb = r_round_half_even(eng.spec_mul(b, v.sr))
     else:
         sb = I(b) * v.sr
     return sa, sb
@@ -391,18 +391,30 @@ def unit_seconds(sess, ctx):
         eng.prove("C16:seconds:accepted-index-is-a-numeric-slice", not bad, props=("C16",))
         if bad:
             return None
-        sa, sb = sec_bounds(v, a, b)
+        sa, sb = sec_bounds(v, a, b, eng)
         lo, hi, cnt, dspec = slice_spec(v, sa, sb, eng)
         expect_region(eng, res, v, dspec, "C16:seconds", ("C16",))
         # each bound within one sample period of the requested instant
         if a is not None:
+            xa = Real("exact.a*rate")
+            eng.assume(xa == R(a) * R(v.sr))
             eng.prove("C16:seconds:start-within-one-sample-toward-zero",
-                      And(R(sa) - R(a) * R(v.sr) < 1, R(a) * R(v.sr) - R(sa) < 1,
-                          Implies(R(a) >= 0, R(sa) <= R(a) * R(v.sr)), Implies(R(a) <= 0, R(sa) >= R(a) * R(v.sr))),
+                      Implies(And(xa <= 2 ** 53, xa >= -(2 ** 53)), And(R(sa) - xa < 1, xa - R(sa) < 1)),
+                      props=("C16",))
+            pa = eng.spec_mul(a, v.sr)
+            eng.prove("C16:seconds:start-truncated-toward-zero(of-the-float-product)",
+                      And(Implies(pa >= 0, And(R(sa) <= pa, pa - R(sa) < 1)), Implies(pa <= 0, And(R(sa) >= pa, R(sa) - pa < 1))),
                       props=("C16",))
         if b is not None:
-            d = R(sb) - R(b) * R(v.sr)
-            eng.prove("C16:seconds:stop-rounded-to-nearest", And(d * 2 <= 1, d * 2 >= -1), props=("C16",))
+            xb = Real("exact.b*rate")
+            eng.assume(xb == R(b) * R(v.sr))
+            d = R(sb) - xb
+            # the float product lies between floor and ceil of the exact one (DESIGN 2.4), so the rounded bound is
+            # within one sample period of the requested instant (instants up to 2**53 samples)
+            eng.prove("C16:seconds:stop-within-one-sample-period",
+                      Implies(And(xb <= 2 ** 53, xb >= -(2 ** 53)), And(d <= 1, d >= -1)), props=("C16",))
+            dp = R(sb) - eng.spec_mul(b, v.sr)
+            eng.prove("C16:seconds:stop-rounded-to-nearest(of-the-float-product)", And(dp * 2 <= 1, dp * 2 >= -1), props=("C16",))
         return None
     sess.run_unit(u, eng, run_)
     return u
@@ -440,11 +452,11 @@ def unit_millis(sess, ctx):
         eng.prove("C16:millis:accepted-index-is-a-plain-int-slice", not bad, props=("C16",))
         if bad:
             return None
-        fa = None if a is None else Fl(R(a) / 1000)
-        fb = None if b is None else Fl(R(b) / 1000)
+        fa = None if a is None else Fl(eng.spec_div(a, 1000))
+        fb = None if b is None else Fl(eng.spec_div(b, 1000))
         if a is None:
-            fa = Fl(R(0) / 1000)
-        sa, sb = sec_bounds(v, fa, fb)
+            fa = Fl(eng.spec_div(0, 1000))
+        sa, sb = sec_bounds(v, fa, fb, eng)
         lo, hi, cnt, dspec = slice_spec(v, sa, sb, eng)
         expect_region(eng, res, v, dspec, "C16:millis-equals-seconds-at-t/1000", ("C16",))
         return None
@@ -655,7 +667,7 @@ def unit_make_silence(sess, ctx):
         if not ok:
             return None
         h = eng.st.heap[res.oid]
-        ns = r_round_half_even(R(d) * R(sr))
+        ns = r_round_half_even(eng.spec_mul(d, sr))
         eng.prove("C17:make_silence:round(d*rate)-samples", I(h["data"].n) == imul(imul(ns, sw), ch), props=("C17", "C13"))
         j = Int("j")
         eng.prove("C17:make_silence:all-bytes-zero", Implies(And(j >= 0, j < I(h["data"].n)), I(h["data"].at(j)) == 0),
